@@ -30,7 +30,7 @@ def main():
         meta = json.load(open(os.path.join(d, 'meta.json')))
         # a scratch copy of the analysed part of /repo's working tree (the checks only read sources), so that
         # concurrent work on /repo is not disturbed; equivalent to `git -C /repo apply` + `git checkout -- .`
-        scratch = '/tmp/seedrepo_%s' % sid
+        scratch = '/tmp/seedrepo_%s_%d' % (sid, os.getpid())
         sh('rm -rf %s && mkdir -p %s && cp -r /repo/Cython /repo/pyximport %s/ && mkdir -p %s/docs/src && cp -r /repo/docs/src/userguide %s/docs/src/ ; '
            'find %s -name "*.so" -delete' % (scratch, scratch, scratch, scratch, scratch, scratch))
         patch = os.path.join(d, 'patch.diff')
